@@ -218,10 +218,25 @@ def _cal_expr_domain(prog: Program, fn: FunctionInfo, v: ast.AST, date: str, yr:
         if t.fn is not None and t.fn.fq == "version.quarter_from_month" and unparse(v.args[0]) == f"{date}.month":
             # fold  ((m - 1) // 3) + 1  over m in 1..12
             q = t.fn
-            rets = [n for n in ast.walk(q.node) if isinstance(n, ast.Return)]
-            vals = sorted({_fold_arith(rets[0].value, {q.params[0]: m}) for m in range(1, 13)})
+            vals = sorted({_fold_fn(q, m) for m in range(1, 13)})
             return ("ints", vals[0], vals[-1]), "quarter_from_month(date.month)"
     raise AnalysisError(f"{fn.fq}: calendar field expression not enumerated: {txt}")
+
+
+def _fold_fn(q: FunctionInfo, arg: int) -> int:
+    """Fold a one-parameter arithmetic function: optional local assignments, then `return <expr>`."""
+    env = {q.params[0]: arg}
+    body = [st for st in q.node.body if not (isinstance(st, ast.Expr) and isinstance(st.value, ast.Constant))]
+    for st in body:
+        if isinstance(st, (ast.Assign, ast.AnnAssign)) and st.value is not None:
+            tgt = st.targets[0] if isinstance(st, ast.Assign) else st.target
+            if isinstance(tgt, ast.Name):
+                env[tgt.id] = _fold_arith(st.value, env)
+                continue
+        if isinstance(st, ast.Return) and st.value is not None:
+            return _fold_arith(st.value, env)
+        raise AnalysisError(f"{q.fq}: statement not foldable: {unparse(st)[:50]}")
+    raise AnalysisError(f"{q.fq}: no return")
 
 
 def _fold_arith(e: ast.AST, env: T.Dict[str, int]) -> int:
